@@ -72,7 +72,8 @@ class C19(Check):
 
     def strategy(self, env):
         tree = st.fixed_dictionaries({"k": st.just("tree"), "tree": safe_name_tree(), "ext": st.booleans(), "odir": st.booleans(), "verbose": st.booleans(),
-                                      "append": st.sampled_from(["none", "file", "dir"]), "nest": st.booleans()})
+                                      "append": st.sampled_from(["none", "file", "dir"]), "nest": st.booleans(),
+                                      "stem": st.sampled_from(["t", "t", "backup.2024", "v1.2.3", "site.tar", "a b", ".hidden", "x.7z.old"])})
         from checks.c04_damage import base_names
 
         bases = [b for b in base_names() if "aes" not in b]
@@ -95,6 +96,16 @@ class C19(Check):
             i += 1
             if env.mine(i):
                 yield c
+        # archive names as typed: with and without .7z, stems that contain dots
+        small = {"root": {"kind": "dir", "name": "root", "mode": 0o755, "mtime_ns": 10 ** 18, "children": [
+            {"kind": "file", "name": "f.txt", "data": ["hex", "6869"], "mode": 0o644, "mtime_ns": 10 ** 18},
+            {"kind": "dir", "name": "d", "mode": 0o750, "mtime_ns": 10 ** 18, "children": []}]}, "links": [], "arcname": None, "password": None,
+            "entry": "writeall", "source": "relative"}
+        for stem in ("t", "backup.2024", "v1.2.3", "site.tar", ".hidden", "x.7z.old", "a b"):
+            for ext in (False, True):
+                i += 1
+                if env.mine(i):
+                    yield {"k": "tree", "tree": small, "ext": ext, "odir": bool(i % 2), "verbose": False, "append": ["none", "file", "dir"][i % 3], "nest": False, "stem": stem}
         for u in UNITS:
             i += 1
             if env.mine(i):
@@ -142,17 +153,20 @@ class C19(Check):
         out.nontrivial = len(nodes) + len(links) >= 2
         out.descriptor = ("tree", len(nodes), len(links), case["ext"], case["odir"], case["verbose"], case["append"], nest)
         out.sample = {"nodes": len(nodes), "links": len(links), "ext": case["ext"], "odir": case["odir"], "append": case["append"]}
-        arcarg = "t.7z" if case["ext"] else "t"
+        stem = case.get("stem") or "t"  # a stem with dots: '.7z' is appended to the name as given, nothing is replaced
+        aname = stem + ".7z"
+        arcarg = aname if case["ext"] else stem
         sig = {"cmd": "c"}
         rc, so, se = cli(["c", arcarg, given], top)
-        apath = os.path.join(top, "t.7z")
+        apath = os.path.join(top, aname)
         if rc != 0 or not os.path.exists(apath):
-            out.violate(dict(sig, kind="create-failed", rc=rc), observed=(se or so)[-300:], expected="exit 0 and archive t.7z")
+            out.violate(dict(sig, kind="create-failed", rc=rc, dotted="." in stem), observed={"err": (se or so)[-300:], "files": sorted(os.listdir(top))[:6]},
+                        expected="exit 0 and archive " + aname)
             return
         with py7zr.SevenZipFile(apath) as z:
             libnames = z.getnames()
         # l
-        rc, so, se = cli(["l", "t.7z"] + (["--verbose"] if case["verbose"] else []), top)
+        rc, so, se = cli(["l", aname] + (["--verbose"] if case["verbose"] else []), top)
         if libnames and not all(n == given or n.startswith(given + "/") for n in libnames):
             out.violate({"cmd": "c", "kind": "stored-names-do-not-keep-the-given-path", "nest": nest}, observed=libnames[:4], expected=given + "/...")
         rows = listing_names(so)
@@ -163,7 +177,7 @@ class C19(Check):
                 out.violate({"cmd": "l", "kind": "listing-differs-from-library", "verbose": case["verbose"]},
                             observed=[r[-40:] for r in rows][:6], expected=libnames[:6])
         # t
-        rc, so, se = cli(["t", "t.7z"], top)
+        rc, so, se = cli(["t", aname], top)
         if rc != 0:
             out.violate({"cmd": "t", "kind": "intact-archive-nonzero", "rc": rc}, observed=(se or so)[-300:], expected="exit 0")
         # x
@@ -207,7 +221,7 @@ class C19(Check):
                     f.write(b"\x00\x01appended")
                 extra = "more/sub" if nest else "more"
                 want_new = "more/sub/n.bin"
-            rc, so, se = cli(["a", "t.7z", extra], top)
+            rc, so, se = cli(["a", aname, extra], top)  # 'a' refuses names that lack .7z, by design
             if rc != 0:
                 out.violate({"cmd": "a", "kind": "append-failed", "rc": rc}, observed=(se or so)[-300:], expected="exit 0")
             else:
